@@ -25,6 +25,8 @@ try:
     env = dict(os.environ, PYTHONPATH=repo, PANOPTICA_CITATION_REMINDER="false")
     os.makedirs(repo + "/out")
     shutil.copy(demo, repo + f"/out/{var}_demo.py")
+    _t = open(repo + f"/out/{var}_demo.py").read().replace(f"{BASE}/{prop}/", "/").replace(f"{BASE}/{prop}", "/")  # demos may assert their own worktree path
+    open(repo + f"/out/{var}_demo.py", "w").write(_t)
     r0 = subprocess.run([PY, f"out/{var}_demo.py"], cwd=repo, env=env, capture_output=True, text=True, timeout=600)
     ran.append(f"demo on unchanged tree: exit {r0.returncode}")
     ap = subprocess.run(["git", "-C", repo, "apply", patch], capture_output=True, text=True)
